@@ -30,6 +30,8 @@ TEnc == /\ IsEvent("Enc")
         /\ LET o == EncodeOutcome(E.kind, E.rec, E.mode) IN
            CASE E.res = "ok" -> o # "refused" /\ E.bytes = SpecEncode(E.kind, E.rec, E.mode)
              [] OTHER -> o # "ok"                 \* an error or a panic: only where the specification refuses or may refuse
+        \* dense time sweeps also report what the decoder reads back from the frame
+        /\ ("durkey" \in DOMAIN E /\ E.res = "ok") => E.back_dur = DurReread(E.kind, E.rec, E.durkey)
 TDec == /\ IsEvent("Dec")
         /\ DecodeAllowed(E.mode, IF E.len > 0 THEN E.sb ELSE 0, E.len, E.res, E.after)
         /\ E.rest_ok                                 \* the bytes that remain are the untouched suffix
